@@ -4,6 +4,9 @@
 //! Request: {"src": mamba source (user classes), "terms": [term…], "eq": [[i, j]…]}
 //! term: {"n": "Int"} | {"n": "List", "g": [term…]} | {"opt": term} | {"u": [term, term…]}
 //!       | {"tuple": [term…]} | {"fun": [[term…], term]}
+//!       | {"ann": "type text"}  the name the checker itself builds from a type annotation in source
+//!         (`def zz: <text>` is parsed by mamba, Name::try_from on the type node): unions written in
+//!         source are NOT normalised by Name::union
 //! Reply: display strings, the matrix sup[i][j] of `terms[i].is_superset_of(terms[j])`
 //! (1 true, 0 false, 2 Err, 3 panic) built twice from freshly constructed names (the second time
 //! union members are inserted in reverse order), the answers of the `==` queries, and the
@@ -15,10 +18,27 @@ use mamba::check::context::Context;
 use mamba::check::name::string_name::StringName;
 use mamba::check::name::{IsSuperSet, Name, Nullable, TupleCallable, Union};
 use mamba::common::position::Position;
-use mamba::parse::ast::AST;
+use mamba::parse::ast::{Node, AST};
 use serde_json::{json, Value};
 
+fn from_annotation(text: &str) -> Result<Name, String> {
+    let src = format!("def zz_ann: {text}\n");
+    let ast = src.parse::<AST>().map_err(|e| format!("annotation {text} does not parse: {e}"))?;
+    let stmt = match &ast.node {
+        Node::Block { statements } => statements.first().cloned().ok_or("empty block")?,
+        _ => ast.clone(),
+    };
+    match &stmt.node {
+        Node::VariableDef { ty: Some(ty), .. } => Name::try_from(ty)
+            .map_err(|e| format!("annotation {text}: {}", e.first().map_or(String::new(), |e| format!("{e}")))),
+        other => Err(format!("annotation {text}: unexpected node {other:?}")),
+    }
+}
+
 fn build(term: &Value, reverse: bool) -> Result<Name, String> {
+    if let Some(text) = term.get("ann").and_then(|t| t.as_str()) {
+        return from_annotation(text);
+    }
     if let Some(n) = term.get("n").and_then(|n| n.as_str()) {
         let generics: Vec<Name> = match term.get("g").and_then(|g| g.as_array()) {
             Some(g) => g.iter().map(|t| build(t, reverse)).collect::<Result<_, _>>()?,
